@@ -22,6 +22,7 @@ import (
 	"go/types"
 	"os"
 	"runtime/debug"
+	"sort"
 	"strings"
 
 	"golang.org/x/tools/go/packages"
@@ -29,6 +30,69 @@ import (
 	"honnef.co/go/tools/go/ir/irutil"
 	"verif/harness/internal/c14dump"
 )
+
+var allFuncs bool
+
+// funcsOf returns the source functions of pkg (the order of SrcFuncs) and, with -all,
+// after them every other function with a body that irutil.AllFunctions finds in the
+// program and that belongs to pkg (synthetic wrappers, bound-method thunks, generic
+// instantiations, and their anonymous functions), sorted by name. Functions attributed to
+// no package (shared wrappers) are returned once, for the first package that asks.
+func funcsOf(prog *ir.Program, pkg *ir.Package, seen map[*ir.Function]bool) []*ir.Function {
+	var out []*ir.Function
+	for _, fn := range c14dump.SrcFuncs(pkg) {
+		if !seen[fn] {
+			seen[fn] = true
+			out = append(out, fn)
+		}
+	}
+	if !allFuncs {
+		return out
+	}
+	var extra []*ir.Function
+	var add func(fn *ir.Function)
+	add = func(fn *ir.Function) {
+		if fn == nil || seen[fn] || len(fn.Blocks) == 0 {
+			return
+		}
+		owner := ownerOf(fn)
+		if owner != nil && owner != pkg {
+			return
+		}
+		seen[fn] = true
+		extra = append(extra, fn)
+		for _, a := range fn.AnonFuncs {
+			add(a)
+		}
+	}
+	for fn := range irutil.AllFunctions(prog) {
+		add(fn)
+	}
+	sort.SliceStable(extra, func(i, j int) bool {
+		a, b := extra[i], extra[j]
+		if a.String() != b.String() {
+			return a.String() < b.String()
+		}
+		if a.Synthetic != b.Synthetic {
+			return a.Synthetic < b.Synthetic
+		}
+		return len(a.Blocks) < len(b.Blocks)
+	})
+	return append(out, extra...)
+}
+
+// ownerOf attributes a function to a package (nil: shared synthetic function).
+func ownerOf(fn *ir.Function) *ir.Package {
+	for f := fn; f != nil; f = f.Parent() {
+		if f.Pkg != nil {
+			return f.Pkg
+		}
+		if o := f.Origin(); o != nil && o != f && o.Pkg != nil {
+			return o.Pkg
+		}
+	}
+	return nil
+}
 
 func main() {
 	full := flag.Int("full", 64, "complete Dominates matrix for functions with at most this many blocks")
@@ -39,6 +103,7 @@ func main() {
 	srclist := flag.String("srclist", "", "file with one source file name per line")
 	pkgs := flag.Bool("pkgs", false, "arguments are go/packages patterns")
 	dir := flag.String("dir", ".", "directory for -pkgs")
+	flag.BoolVar(&allFuncs, "all", false, "also dump every function irutil.AllFunctions finds (wrappers, thunks, bound methods, instantiations)")
 	flag.Parse()
 
 	var mode ir.BuilderMode
@@ -118,7 +183,7 @@ func dumpFile(d *c14dump.Dumper, file string, mode ir.BuilderMode) {
 			return
 		}
 	}
-	for _, fn := range c14dump.SrcFuncs(irpkg) {
+	for _, fn := range funcsOf(irpkg.Prog, irpkg, map[*ir.Function]bool{}) {
 		d.Function(pid, fn)
 	}
 }
@@ -143,8 +208,29 @@ func dumpPkgs(d *c14dump.Dumper, dir string, patterns []string, mode ir.BuilderM
 		}
 		good = append(good, p)
 	}
-	_, irpkgs := irutil.Packages(good, mode)
+	prog, irpkgs := irutil.Packages(good, mode)
+	seen := map[*ir.Function]bool{}
+	// build everything first: wrappers and instantiations are created on demand
+	built := make([]bool, len(irpkgs))
 	for i, irpkg := range irpkgs {
+		if irpkg == nil {
+			continue
+		}
+		func() {
+			defer func() {
+				if r := recover(); r != nil {
+					pid := d.Package(good[i].PkgPath, "")
+					d.Error(pid, fmt.Sprintf("builder panic: %v\n%s", r, debug.Stack()))
+				}
+			}()
+			irpkg.Build()
+			built[i] = true
+		}()
+	}
+	for i, irpkg := range irpkgs {
+		if irpkg != nil && !built[i] {
+			continue
+		}
 		pid := d.Package(good[i].PkgPath, "")
 		if irpkg == nil {
 			d.Error(pid, "no ir package")
@@ -156,8 +242,7 @@ func dumpPkgs(d *c14dump.Dumper, dir string, patterns []string, mode ir.BuilderM
 					d.Error(pid, fmt.Sprintf("builder panic: %v\n%s", r, debug.Stack()))
 				}
 			}()
-			irpkg.Build()
-			for _, fn := range c14dump.SrcFuncs(irpkg) {
+			for _, fn := range funcsOf(prog, irpkg, seen) {
 				d.Function(pid, fn)
 			}
 		}()
